@@ -201,6 +201,8 @@ class CppInterface(CppBaseType):
         # used for coroutine callback parameters
         @cached_property
         def callback_type_spec(self):
+            if self.decl.return_type_ref is None:
+                return "void"
             return self._type_specifier(self.decl.return_type_ref, is_parameter=True)
 
         def prefix_specifiers(self, implementation: bool = False) -> str:
